@@ -15,7 +15,10 @@ RULE = ("noiseless ground-rydberg sequences, 1-6 atoms (thorough: up to 9), full
         "incl. 0 and off-grid; optional initial state, interaction_cutoff, user interaction matrix (also with a "
         "non-zero diagonal, which must be ignored); oracle: independent dense expm chain built from Pulser's samples "
         "(scipy PCHIP at my own grid midpoints) and Pulser's interaction matrix; compared: state vector incl. global "
-        "phase, occupation, correlation matrix, energy, second moment, variance, fidelity, expectation; non-trivial = "
+        "phase, occupation, correlation matrix, energy, second moment, variance, fidelity, expectation; a tenth of the cases "
+        "check the discretisation clause instead: smooth end-vanishing pulses (Blackman amplitude, ramped detuning) run at "
+        "dt and dt/2 against a fine reference (0.25 ns exact steps on the interpolated samples) must show second-order "
+        "convergence (error ratio <= 0.45); non-trivial = "
         ">=2 atoms, non-zero interaction and drive, >=3 steps, final state differs from the initial one; distinct = "
         "case hash")
 ASSUMPTIONS = ["'Pulser's reference emulator' is replaced by a dense numpy/scipy integrator written from Pulser's "
@@ -51,8 +54,49 @@ def _cases(draw, n_max=6):
     return c
 
 
+@st.composite
+def _disc_cases(draw):
+    """discretisation clause: smooth pulses that vanish at both ends, run at dt and dt/2"""
+    reg = draw(gen.registers(2, 4, dmin=6.0, dmax=10.0))
+    d = draw(st.sampled_from([48, 64, 96]))
+    return {"kind": "disc", "reg": reg, "d": d, "area": draw(st.sampled_from([1.5, 3.1, 5.0])),
+            "det": [draw(st.sampled_from([-6.0, -2.0, 0.0])), draw(st.sampled_from([0.0, 4.0, 9.0]))],
+            "phase": draw(st.sampled_from([0.0, 1.1])), "dt": draw(st.sampled_from([8, 4])), "seed": draw(st.integers(0, 2**20))}
+
+
 def strategy(tier):
-    return _cases(n_max=6 if tier == "quick" else 9)
+    main = _cases(n_max=6 if tier == "quick" else 9)
+    return st.integers(0, 9).flatmap(lambda k: _disc_cases() if k == 0 else main)
+
+
+def _check_disc(case) -> Result:
+    """The emulated state converges to the continuous-time limit of the sampled (interpolated) Hamiltonian with second
+    order in dt: halving dt must cut the distance to a fine reference (0.25 ns steps, exact exponentials) by clearly
+    more than a first-order scheme would."""
+    import numpy as np
+    import pulser.backend as pb
+    from emu_sv import SVBackend
+
+    r = Result()
+    seqc = {"reg": case["reg"], "basis": "rydberg", "device": "mock", "local": None, "dmm": None, "slm": None,
+            "ops": [{"t": "pulse", "ch": "g", "amp": {"k": "blackman", "d": case["d"], "area": case["area"]},
+                     "det": {"k": "ramp", "d": case["d"], "a": case["det"][0], "b": case["det"][1]}, "phase": case["phase"]}]}
+    seq = build.sequence(seqc)
+    fine = {"seq": seqc, "evals": [[1.0]], "dt": 0.25, "custom": None, "cutoff": 0.0}
+    refs, info = reference(fine, seq)
+    exact = refs[0].states[len(info["grid"]) - 1]
+    errs = []
+    for dt in (case["dt"], case["dt"] / 2):
+        cfg = cut(e2e.sv_config, dt=dt, krylov_tolerance=1e-12, observables=[pb.StateResult(evaluation_times=[1.0])])
+        res = cut(SVBackend(seq, config=cfg).run)
+        errs.append(float(np.linalg.norm(res.state[-1].data.numpy() - exact)))
+    r.label("discretisation", f"n{len(case['reg']['ids'])}")
+    r.info = {"err_dt": errs[0], "err_half_dt": errs[1]}
+    r.nontrivial = errs[0] > 1e-6
+    if errs[0] > 1e-6 and errs[1] > 0.45 * errs[0] + 1e-7:
+        r.fail("discretisation_not_second_order", f"distance to the fine reference: {errs[0]:.3e} at dt={case['dt']}, {errs[1]:.3e} at dt={case['dt'] / 2} "
+                                                     f"(ratio {errs[1] / errs[0]:.2f}; a midpoint scheme gives ~0.25, a first-order one ~0.5)")
+    return r
 
 
 def reference(case, seq, backend="sv", psi0=None, extra_rel_times=(), step=None):
@@ -110,6 +154,8 @@ def check_case(case) -> Result:
     import pulser.backend as pb
     from emu_sv import DenseOperator, StateVector, SVBackend
 
+    if case.get("kind") == "disc":
+        return _check_disc(case)
     r = Result()
     e2e.seed_all(case["seed"])
     seqc = case["seq"]
